@@ -272,6 +272,7 @@ def check(repo, tier="quick"):
     res.rule("C11.b", "oned_analysis applies the filter's stages in the reverse of oned_synthesis's order, with the same stage fields and table key")
     res.rule("C11.c", "vh_analysis / h_analysis operation list = reversed synthesis list with each operation inverted; same state key per direction; same interleave map; same shift")
     res.rule("C11.d", "dwt walks the levels in the reverse of idwt's order over the same ranges, with the same band names per level and the same level-0 naming condition")
+    res.rule("C11.f", "history independence: the transform modules keep no state between pictures; no swapped same-named arguments (width/height, row/column)")
     res.rule("C11.e", "dwt_pad_addition pads every component to subband_width/height(state, dwt_depth + dwt_depth_ho + 1, c)")
 
     md, me = repo.mod(DEC), repo.mod(ENC)
@@ -280,6 +281,11 @@ def check(repo, tier="quick"):
     rule_c(repo, res, md, me)
     rule_d(repo, res, md, me)
     rule_e(repo, res, me)
+    from .. import globals_state, lints
+
+    globals_state.rule(repo, res, "C11.f", ["pseudocode.picture_encoding", "pseudocode.picture_decoding", "pseudocode.arrays", "pseudocode.vc2_math"], what="the coefficients computed for one picture")
+    lints.rule(repo, res, "C11.f", ["pseudocode.picture_encoding", "pseudocode.picture_decoding"])
+    res.floor("C11.f", 6)
     res.floor("C11.a", 4)
     res.floor("C11.b", 4)
     res.floor("C11.c", 8)
